@@ -77,6 +77,9 @@ def cases(tier, seed):
         for es in (True, False):
             for first in (1, 2, 3):
                 out.append(dict(type="bfs", patience=patience, early_stopping=es, first=first, depth=B["bfs_depth"], key=seed + 9))
+            # with non-finite validation losses in the alphabet (NaN is never a strict new minimum)
+            for first in (2, "nan"):
+                out.append(dict(type="bfs", patience=patience, early_stopping=es, first=first, depth=B["bfs_depth"] - 1, key=seed + 9, alphabet=[1, 2, "nan"]))
     vals = (1.0, 2.0, 3.0)
     Lb = B["builtin_len"]
     seqs = list(itertools.product(vals, repeat=Lb))
@@ -177,11 +180,14 @@ def run_bfs(case):
     def P(val):
         return jinns.parameters.Params(nn_params=None, eq_params={"v": jnp.asarray(float(val))})
 
+    alphabet = case.get("alphabet", [1, 2, 3])
+
     def step(state, op, hist):
         m, best, nonimp, draws, stopped = state
         eager = len(hist) < 2
         new, stop, crit, improved = (m(P(op)) if eager else call(m, P(op)))
-        exp_imp = op < best
+        opv = float(op)
+        exp_imp = opv < best  # False for NaN
         exp_stop = es and (nonimp == patience)
         v = []
         if bool(improved) != exp_imp:
@@ -190,24 +196,24 @@ def run_bfs(case):
         if not stopped and bool(stop) != exp_stop:
             v.append(V(site, "stop_request_differs_from_patience_rule",
                        f"values {hist + [op]} patience {patience} early_stopping {es}: stop={bool(stop)} but {nonimp} consecutive non-improving invocation(s) precede"))
-        if float(crit) != float(op):
+        if not (float(crit) == opv or (np.isnan(float(crit)) and np.isnan(opv))):
             v.append(V(site, "criterion_is_not_the_validation_loss", f"{float(crit)} vs {op}"))
         # its own generator advanced by exactly one draw
         g_ref = m.validation_data.get_batch()[0]
         if not tl.gen_equal(new.validation_data, g_ref):
             v.append(V(site, "validation_generator_not_advanced_by_one_draw", ""))
-        nb = min(best, op)
+        nb = opv if exp_imp else best
         return (new, nb, 0 if exp_imp else nonimp + 1, draws + 1, stopped or exp_stop), v
 
     def canon(state):
         m, best, nonimp, draws, _ = state
-        return (float(m.counter), float(m.best_val_loss), draws)
+        return (float(m.counter), repr(float(m.best_val_loss)), draws)
 
     init = (v0, float("inf"), 0, 0, False)
     s1, viol1 = step(init, case["first"], [])
     if viol1:
         return dict(viol=[dict(x, history=[case["first"]]) for x in viol1], evals=1, states=1, transitions=1)
-    st = explore(s1, lambda s, h: [1, 2, 3], lambda s, op, h: step(s, op, [case["first"]] + h), canon, case["depth"] - 1,
+    st = explore(s1, lambda s, h: alphabet, lambda s, op, h: step(s, op, [case["first"]] + h), canon, case["depth"] - 1,
                  outcome=lambda s: str(canon(s)[:2]))
     res = st.as_result({"nontrivial": [f"bfs|{patience}|{es}|{case['first']}"],
                         "sample": {"type": "bfs", "patience": patience, "early_stopping": es, "values": [case["first"]] + (st.sample_trace or [])}})
